@@ -217,7 +217,7 @@ theorem grouped_of_chosen (a : VecAgg) (g : Grouping) (hg : chosenGrouping a.byP
 def aggOk (q : MetricQuery) : Prop :=
   match q.agg? with
   | none => True
-  | some a => (chosenGrouping a.byPrefix a.bySuffix).isSome ∧ a.fn ≠ .stddev ∧ a.fn ≠ .stdvar
+  | some a => (chosenGrouping a.byPrefix a.bySuffix).isSome = true
 
 /-- points of the direct reading above the range stage (before step re-bucketing) -/
 def upperPts (o : Oracles) (c : MCtx) (d : LokiDb) (q : MetricQuery) (p0 : List Pt) : List Pt :=
@@ -312,9 +312,9 @@ theorem planPhases_of_range (short : Bool) (o : Oracles) (c : MCtx) (hn : c.name
       rfl
     | agg a => simp [MetricQuery.agg?] at hagg
   | some a =>
-    have hok' : (chosenGrouping a.byPrefix a.bySuffix).isSome ∧ a.fn ≠ .stddev ∧ a.fn ≠ .stdvar := by
+    have hok' : (chosenGrouping a.byPrefix a.bySuffix).isSome = true := by
       unfold aggOk at hok; rw [hagg] at hok; exact hok
-    obtain ⟨g, hg⟩ := Option.isSome_iff_exists.mp hok'.1
+    obtain ⟨g, hg⟩ := Option.isSome_iff_exists.mp hok'
     have hgr : a.grouped = true := grouped_of_chosen a g hg
     have hml : matrixLabelsW short q = true := by unfold matrixLabelsW; simp [hagg, hgr]
     have hA : aggPhase short c q (rangeState short c q) =
@@ -324,7 +324,7 @@ theorem planPhases_of_range (short : Bool) (o : Oracles) (c : MCtx) (hn : c.name
       simp only [hml, hun, Bool.not_false, hg, planByWithout, if_true, hid]
     have hU1 : (match q.agg? with
         | some a => cmpStage a.cmp (aggStage o c.toCtx d q.rangeAgg.sel a p0)
-        | none => p0) = cmpStage a.cmp (aggCore a.fn (p0.map (regroupPt o c.toCtx d q.rangeAgg.sel g))) := by
+        | none => p0) = cmpStage a.cmp (aggCore o a.fn (p0.map (regroupPt o c.toCtx d q.rangeAgg.sel g))) := by
       rw [hagg]; simp only [aggStage_eq, hg, Option.getD_some]
     rw [hA]
     unfold joinPhase upperPts
@@ -333,10 +333,10 @@ theorem planPhases_of_range (short : Bool) (o : Oracles) (c : MCtx) (hn : c.name
     have h2 := hr.byWithoutTS hn hm (fun p hp => (hstream p hp).2) (labelConds q.rangeAgg.sel).length g
       (by intro hmem; have := Alias.named.inj (hLr _ hmem); revert this; str_ne)
       (by intro hmem; have := Alias.named.inj (hLr _ hmem); revert this; str_ne)
-    have h3 := h2.agg a.fn hok'.2 a.cmp (by
+    have h3 := h2.agg a.fn a.cmp (by
       simp only [List.mem_append, List.mem_cons, List.not_mem_nil, or_false, Alias.named.injEq, not_or]
       refine ⟨hfreshLr _ (by decide), ?_, ?_⟩ <;> (apply Ne.symm; str_ne))
-    have hreg : ∀ p ∈ cmpStage a.cmp (aggCore a.fn (p0.map (regroupPt o c.toCtx d q.rangeAgg.sel g))), Regrouped p := by
+    have hreg : ∀ p ∈ cmpStage a.cmp (aggCore o a.fn (p0.map (regroupPt o c.toCtx d q.rangeAgg.sel g))), Regrouped p := by
       apply cmpStage_labels
       apply aggCore_regrouped
       intro p hp
@@ -356,7 +356,7 @@ theorem planPhases_of_range (short : Bool) (o : Oracles) (c : MCtx) (hn : c.name
         (hfreshL3 _ (by decide) (by decide) (by intro k; str_ne) (by intro k; str_ne))
         (hfreshL3 _ (by decide) (by decide) (by intro k; str_ne) (by intro k; str_ne))
       have hreg2 : ∀ p ∈ cmpStage t.cmp (topkStage t.isTop t.k
-          (cmpStage a.cmp (aggCore a.fn (p0.map (regroupPt o c.toCtx d (MetricQuery.topk t).rangeAgg.sel g))))), Regrouped p :=
+          (cmpStage a.cmp (aggCore o a.fn (p0.map (regroupPt o c.toCtx d (MetricQuery.topk t).rangeAgg.sel g))))), Regrouped p :=
         cmpStage_labels _ _ _ (fun p hp => hreg p (topkStage_sub _ _ _ p hp))
       have h5 := h4.stepFix (MetricQuery.topk t).rangeAgg.durNs true (by
           rw [cols_cmpOpt, topkSel_eq, cols_with, hasLabels_agg]
